@@ -25,6 +25,11 @@ ck.regen()
 mods = ck.props_modules()
 if mods:
     ck.lean(mods)
+    ck.require_theorems([
+        'LbzVerif.Props.C10.spec_safe',
+        'LbzVerif.Props.C10.sink_only_order_head',
+        'LbzVerif.Props.C10.bogus_dropped',
+    ])
 exe = ck.build_lbzip2(asan=False)
 rng = ck.rng
 evals = nontriv = 0
